@@ -28,7 +28,7 @@ def gen_attempt(rng, kind=None):
             a["err"] = (tag, ln, mode); a["acts"].append(f"outn:err:{tag}:{ln}:65536:0:{mode}")
     if kind == "pass": outputs(); a["acts"].append("exit:0"); a["expect"] = "P"
     elif kind == "output": outputs(); a["acts"].append("exit:" + str(rng.choice([0, 0, 1]))); a["expect"] = "P" if a["acts"][-1] == "exit:0" else "F"
-    elif kind == "fail": outputs(); c = rng.choice([1, 2, 101, 255, 129, 137]); a["acts"].append(f"exit:{c}"); a["expect"] = "F"; a["code"] = c
+    elif kind == "fail": outputs(); c = rng.choice([1, 2, 101, 255, 129, 137, 70, 100]); a["acts"].append(f"exit:{c}"); a["expect"] = "F"; a["code"] = c
     elif kind == "signal": s = rng.choice([6, 9, 11, 15]); a["acts"].append(f"kill:{s}"); a["expect"] = f"FS{s}"
     elif kind == "leakpass": a["acts"] += [f"child:{LEAK_TIMEOUT * 4}", "exit:0"]; a["expect"] = "L"
     elif kind == "slowpass": a["acts"] += [f"sleep:{SLOW_PERIOD + 250}", "exit:0"]; a["expect"] = "P"; a["slow"] = True
@@ -257,8 +257,10 @@ test-group = 'g1'
     if k == 12:
         # fixed scenario (corpus): `--retries 0` on the command line against `retries = 2` in the profile and 3 in an override: the
         # command line wins, a failing test is run exactly once
-        tests = [{"bin": "t_one", "pkg": "alpha", "name": "fails_once_only", "ignored": False, "attempts": [fixed_attempt("fail", 10, "F")] * 4},
-                 {"bin": "t_two", "pkg": "alpha", "name": "override_fails", "ignored": False, "attempts": [fixed_attempt("fail", 20, "F")] * 4},
+        # (the two failing tests exit with codes nextest uses itself — 70: the double-spawn launcher's error, 100: a failed run —: a test
+        #  that ends this way on its own has still simply failed)
+        tests = [{"bin": "t_one", "pkg": "alpha", "name": "fails_once_only", "ignored": False, "attempts": [fixed_attempt("fail", 10, "F", code=70)] * 4},
+                 {"bin": "t_two", "pkg": "alpha", "name": "override_fails", "ignored": False, "attempts": [fixed_attempt("fail", 20, "F", code=100)] * 4},
                  {"bin": "t_three", "pkg": "beta", "name": "passes", "ignored": False, "attempts": [fixed_attempt("pass", 30, "P")] * 4}]
         for t in tests: sc.test(t["bin"], t["name"], {str(i + 1): a["acts"] for i, a in enumerate(t["attempts"])})
         sc.config = '''[profile.default]
